@@ -1,7 +1,7 @@
 (* C09 -- Names resolve lexically; consistent renaming changes nothing.
-   Only pinned statements, `exact`, and Print Assumptions.  `gen_rflags` are the three flags regenerated
+   Only pinned statements, `exact`, and Print Assumptions.  `gen_rflags` are the four flags regenerated
    from name_resolution.rs on this run: do `fn if_branch`, `fn case_branch` and the else-block of a case
-   restore the scope stack. *)
+   restore the scope stack; is the root of `x.f` looked up on the scope stack before the namespace table. *)
 From Coq Require Import String List NArith ZArith Bool.
 From Sylt Require Import Syntax.Resolved Resolve.PAst Resolve.Resolver Resolve.ResolveSpec Resolve.SpecProofs
      Resolve.RefineRefuted Resolve.Alpha Resolve.AlphaProofs Resolve.AlphaExample Gen.GenResolve.
@@ -34,19 +34,21 @@ Theorem C09_spec_global : forall e x sp st,
 Proof. exact lookup_in_global. Qed.
 
 (* resolve_refines: `resolve fl ast = resolve_spec ast`.
-   REFUTED whenever one of the three flags is off (this run: see C09_flags): there is a program that the
-   code accepts -- a variable is used after the if-branch / case arm / case else-block that declares it --
-   and the specification rejects.  Witnesses: Resolve/RefineRefuted.v (w_if, w_case, w_else). *)
+   REFUTED whenever one of the four flags is off (this run: see C09_flags): there is a program that the
+   code accepts and resolves differently from the specification -- a variable is used after the if-branch /
+   case arm / case else-block that declares it (the specification rejects), or `b.value` with a parameter b
+   named like an imported namespace (the specification makes it a field access).
+   Witnesses: Resolve/RefineRefuted.v (w_if, w_case, w_else, w_nsfield). *)
 Theorem C09_resolve_refines_refuted :
-  all_restore fl = false -> exists ast, is_ok (resolve fl ast) = true /\ is_ok (resolve_spec ast) = false.
+  all_restore fl = false -> exists ast, is_ok (resolve fl ast) = true /\ resolve fl ast <> resolve_spec ast.
 Proof. exact (resolve_refines_refuted fl). Qed.
 
-(* For the resolver with all three scopes restored the statement is NOT proved here; the tie compares the
+(* For the resolver with all four flags on the statement is NOT proved here; the tie compares the
    two functions on every input of the run (corpus, /repo/tests, generated programs): no difference.
    (Loop bodies that are definitions and top-level statements that are not definitions do not come out
    of the parser and are excluded.) *)
 Definition C09_resolve_refines_statement : Prop :=
-  forall ast, resolve (mkFlags true true true) ast = resolve_spec ast.
+  forall ast, resolve (mkFlags true true true true) ast = resolve_spec ast.
 
 (* alpha: for an injective renaming g of global names that fixes "start", two programs related by a
    consistent renaming of their binders (Resolve/Alpha.v: `alpha_ast`, stated for the scoping discipline
@@ -75,7 +77,7 @@ Proof. exact (alpha_example fl). Qed.
    one: the renaming of a branch-local variable, consistent by the lexical rules, changes the result. *)
 Theorem C09_alpha_lexical_refuted :
   if_truncates fl = false ->
-  alpha_ast (mkFlags true true true) (fun s => s) no_ns no_sure (leak_p "y") (leak_p "z")
+  alpha_ast (mkFlags true true true true) (fun s => s) no_ns no_sure (leak_p "y") (leak_p "z")
   /\ ~ res_rel (resolve fl (leak_p "y")) (resolve fl (leak_p "z")).
 Proof. exact (alpha_lexical_refuted fl). Qed.
 
